@@ -1,5 +1,5 @@
 (* C08 -- streaming_body (identity): the client gets exactly the written bytes, once, in order. *)
-From HS Require Import Lib.Base Model.Chunker Proofs.ChunkerP Proofs.ChunkerHist.
+From HS Require Import Lib.Base Model.Chunker Proofs.ChunkerP Proofs.ChunkerHist Proofs.StreamSession.
 
 (* For any sequence of write, write_all, flush and poll operations and the drop of the writer --
    any length, any chunk size >= 1, any interleaving of consumer polls -- the concatenation of the
@@ -55,6 +55,25 @@ Theorem c08_clean_end_complete : forall cap ops w, 0 < cap ->
   IsOk s -> snd (fst (cstep s (OPoll w))) = RPoll (Some None) -> acc_total ops rs = del_total rs.
 Proof. exact clean_end_complete. Qed.
 
+(* A whole identity session, for every chunk size: write_all and flush in any order with consumer
+   polls anywhere all succeed; after the drop of the writer everything written has been delivered or
+   is queued, and draining delivers the rest in order and then the clean end: the client holds
+   exactly the bytes written, once and in order. *)
+Theorem c08_session : forall cap body, 0 < cap -> Forall raw_op body ->
+  let '(s, rs) := crun (cinit cap) (body ++ [ODropWriter]) in
+  exists q rb, c_st s = SOk q rb true /\ c_w s = WGone /\ Good s /\
+    del_total rs ++ concat q = written body /\
+    let '(sf, rs2) := crun s (repeat (OPoll 0) (S (length q))) in
+    c_st sf = SFused /\ del_total rs ++ del_total rs2 = written body /\
+    exists rs0, rs2 = rs0 ++ [(RPoll (Some None), [])].
+Proof. exact raw_session. Qed.
+Theorem c08_session_live : forall ops s, Good s -> Live s -> Forall raw_op ops ->
+  let '(sf, rs) := crun s ops in
+  Good sf /\ Live sf /\ c_cap sf = c_cap s /\
+  Forall2 (fun o p => raw_ok o (fst p)) ops rs /\
+  pending s ++ c_buf s ++ written ops = del_total rs ++ pending sf ++ c_buf sf.
+Proof. exact raw_live_run. Qed.
+
 Print Assumptions c08_accounting.
 Print Assumptions c08_initial_state_good.
 Print Assumptions c08_delivery.
@@ -63,3 +82,5 @@ Print Assumptions c08_progress.
 Print Assumptions c08_frames_nonempty.
 Print Assumptions c08_delivered_prefix_of_accepted.
 Print Assumptions c08_clean_end_complete.
+Print Assumptions c08_session.
+Print Assumptions c08_session_live.
